@@ -118,7 +118,13 @@ class ParseContract(Contract):
 
     def post(self, call, s, result, exc):
         ctx = self.ctx
-        if s is None or exc is not None:
+        if s is None:
+            return
+        if exc is not None:
+            # "constructing ... yields ...": for a str argument the constructor has to return, whatever the
+            # parameter strings look like (this clause is judged for grey inputs too)
+            ctx.ev('parse-returns')
+            ctx.violation('parse-raised', {'input': s, 'error': repr(exc)[:300]}, call, mech='parse-raised')
             return
         v = result if call.name == '__new__' else call.recv
         check_parse(ctx, s, v, call)
